@@ -16,6 +16,7 @@ import (
 
 type boundedCheck struct {
 	prop   string
+	props  []string // further properties the stand-in serves
 	name   string // "bounded:<function>"
 	fn     string // function the stand-in is for
 	why    string // why it is outside the deductive engine
@@ -39,7 +40,7 @@ var casesRe = regexp.MustCompile(`GVC-BOUNDED-CASES (\d+)`)
 
 func runBounded(prop string) (res []boundedResult, failed []boundedResult) {
 	for _, b := range boundedChecks {
-		if b.prop != prop {
+		if b.prop != prop && !hasTag(b.props, prop) {
 			continue
 		}
 		r := boundedResult{Name: b.name, For: b.fn, Why: b.why, Bound: b.bound, Label: "bounded (not a proof; never counted under obligations/discharged)"}
@@ -195,6 +196,157 @@ func TestGvcReplay(t *testing.T) {
 		}
 		if ha == hb {
 			t.Errorf("GVC-REPLAY-REPRODUCED: two compiled tasks that differ only in %s (%s) get the same when_changed key %s", f.Name, f.Type, ha)
+		}
+	}
+	// names stay bound to their values: swapping the values of two variables is a different set of variables
+	for i := 0; i < tt.NumField(); i++ {
+		f := tt.Field(i)
+		if !f.IsExported() || f.Type != reflect.TypeOf(&ast.Vars{}) {
+			continue
+		}
+		a, b := &ast.Task{Task: "t"}, &ast.Task{Task: "t"}
+		va, vb := ast.NewVars(), ast.NewVars()
+		va.Set("A", ast.Var{Value: "1"})
+		va.Set("B", ast.Var{Value: "2"})
+		vb.Set("A", ast.Var{Value: "2"})
+		vb.Set("B", ast.Var{Value: "1"})
+		reflect.ValueOf(a).Elem().Field(i).Set(reflect.ValueOf(va))
+		reflect.ValueOf(b).Elem().Field(i).Set(reflect.ValueOf(vb))
+		n++
+		ha, _ := Hash(a)
+		hb, _ := Hash(b)
+		if ha == hb {
+			t.Errorf("GVC-REPLAY-REPRODUCED: %s = {A:1, B:2} and {A:2, B:1} get the same when_changed key %s", f.Name, ha)
+		}
+		// ... and the order in which the same variables were added makes no difference
+		vc := ast.NewVars()
+		vc.Set("B", ast.Var{Value: "2"})
+		vc.Set("A", ast.Var{Value: "1"})
+		c := &ast.Task{Task: "t"}
+		reflect.ValueOf(c).Elem().Field(i).Set(reflect.ValueOf(vc))
+		n++
+		if hc, _ := Hash(c); hc != ha {
+			t.Errorf("GVC-REPLAY-REPRODUCED: %s: the same variables added in a different order get different when_changed keys (special variables are added in map order, so identical calls would run twice)", f.Name)
+		}
+	}
+	fmt.Printf("GVC-BOUNDED-CASES %d\n", n)
+}
+`})
+	boundedChecks = append(boundedChecks, boundedCheck{prop: "C08", props: []string{"C09", "C11", "C18"}, name: "bounded:deepcopy.generic-helpers", fn: "github.com/go-task/task/v3/internal/deepcopy.{Slice,Map,OrderedMap}",
+		why:    "the generic copy helpers test every element for the Copier interface at run time (a dynamic type test on a type parameter); their contracts (fresh result, same length, element-wise copies) are assumed by every DeepCopy proof",
+		bound:  "nil, empty and two-element inputs, with plain and with Copier elements, for each of the three helpers: the result must be a different object (also for EMPTY inputs), have the same length and equal contents, and writing to it must not change the original",
+		pkgRel: "internal/deepcopy",
+		src: `package deepcopy
+
+import (
+	"fmt"
+	"testing"
+
+	"github.com/elliotchance/orderedmap/v3"
+)
+
+type gvcBox struct{ v *int }
+
+func (b *gvcBox) DeepCopy() *gvcBox {
+	if b == nil {
+		return nil
+	}
+	x := *b.v
+	return &gvcBox{v: &x}
+}
+
+func TestGvcReplay(t *testing.T) {
+	n := 0
+	bad := func(f string, a ...any) { t.Errorf("GVC-REPLAY-REPRODUCED: "+f, a...) }
+	// OrderedMap
+	for _, size := range []int{0, 1, 2} {
+		n++
+		orig := orderedmap.NewOrderedMap[string, int]()
+		for i := 0; i < size; i++ {
+			orig.Set(fmt.Sprint("k", i), i)
+		}
+		c := OrderedMap(orig)
+		if c == orig {
+			bad("OrderedMap returns its argument (size %d): the copy shares the original", size)
+			continue
+		}
+		if c.Len() != orig.Len() {
+			bad("OrderedMap changes the length (%d -> %d)", orig.Len(), c.Len())
+		}
+		c.Set("new", 99)
+		if _, ok := orig.Get("new"); ok {
+			bad("writing to the copy of an OrderedMap of size %d changed the original", size)
+		}
+	}
+	{
+		n++
+		one := 1
+		orig := orderedmap.NewOrderedMap[string, *gvcBox]()
+		orig.Set("a", &gvcBox{v: &one})
+		c := OrderedMap(orig)
+		cv, _ := c.Get("a")
+		ov, _ := orig.Get("a")
+		if cv == ov || cv.v == ov.v || *cv.v != 1 {
+			bad("OrderedMap does not deep-copy elements that have a DeepCopy method")
+		}
+	}
+	// Slice
+	if Slice[int](nil) != nil {
+		bad("Slice(nil) is not nil")
+	}
+	for _, size := range []int{0, 1, 2} {
+		n++
+		orig := make([]int, size, size+2)
+		for i := range orig {
+			orig[i] = i + 1
+		}
+		c := Slice(orig)
+		if c == nil || len(c) != len(orig) {
+			bad("Slice changes nil-ness or length for size %d", size)
+			continue
+		}
+		for i := range c {
+			if c[i] != orig[i] {
+				bad("Slice changes element %d", i)
+			}
+		}
+		if size > 0 {
+			c[0] = 42
+			if orig[0] == 42 {
+				bad("writing to the copy of a slice changed the original")
+			}
+		}
+		if cap(orig) > len(orig) && cap(c) > 0 && len(c) > 0 && &c[:1][0] == &orig[:1][0] {
+			bad("Slice shares the backing array")
+		}
+	}
+	{
+		n++
+		one := 1
+		orig := []*gvcBox{{v: &one}, nil}
+		c := Slice(orig)
+		if len(c) != 2 || c[0] == orig[0] || c[0].v == orig[0].v || *c[0].v != 1 || c[1] != nil {
+			bad("Slice does not deep-copy elements that have a DeepCopy method (or mishandles a nil element)")
+		}
+	}
+	// Map
+	if Map[string, int](nil) != nil {
+		bad("Map(nil) is not nil")
+	}
+	for _, size := range []int{0, 2} {
+		n++
+		orig := map[string]int{}
+		for i := 0; i < size; i++ {
+			orig[fmt.Sprint("k", i)] = i
+		}
+		c := Map(orig)
+		if c == nil || len(c) != len(orig) {
+			bad("Map changes nil-ness or length")
+			continue
+		}
+		c["new"] = 1
+		if _, ok := orig["new"]; ok {
+			bad("writing to the copy of a map of size %d changed the original", size)
 		}
 	}
 	fmt.Printf("GVC-BOUNDED-CASES %d\n", n)
